@@ -60,7 +60,7 @@ were started up to G cycles after `enable` fell; epochs in which more than four 
 after a lost LGOOD).  Deviation from DESIGN.md section 7: enable epochs (link re-entry) are part of the workload although
 the quantifier names only link-command histories and queue timings - `enable` is `ltssm.link_ready` in the link layer, a
 retry interrupted by recovery is an ordinary history, and what is judged there is the statement itself (no header
-without advertisement / credit); 48 long cases instead of 1 k short ones because of the elaboration cost.
+without advertisement / credit); 32 long cases (512 sessions, about 1400 epochs) instead of 1 k short ones because of the elaboration cost.
 """
 import os
 import sys
@@ -71,7 +71,8 @@ from rv.ref.crc import usb3_crc5
 TRACE = bool(os.environ.get("C39_TRACE"))
 
 PROPERTY = "C39"
-CASES = {"quick": 48, "thorough": 640}
+CASES = {"quick": 32, "thorough": 640}
+TIMEOUT = {"quick": 3600, "thorough": 8 * 3600}      # wall-clock watchdog; a case takes 10-15 s on an idle machine, minutes on a loaded one
 RULE = ("case = 16 sessions (hard reset between them) of 1-3 enable epochs on one PacketTransmitter; session profile = (ack delay, credit "
         "delay, corruption probability for new and for retransmitted headers, mismatch/loss injections, source.ready profile, LRTY "
         "latency, queue burstiness or offers aimed at the LBAD/LGOOD decode cycle); the partner is reactive, LBAD 0-30 cycles after a "
